@@ -185,8 +185,10 @@ def exits(ctx, write_guarded):
         cause = None
         if names == {"ShutdownEvent"}:
             cause = "shutdown"
-        elif src is not None and (is_call(src, "accept") or (is_call(src, "std::io::Write::write") and any(is_call(x, "accept") for x in subterms(src) if isinstance(x, tuple)))):
-            cause = "accept/refusal-write I/O error"
+        elif src is not None and is_call(src, "std::io::Write::write") and any(is_call(x, "accept") for x in subterms(src) if isinstance(x, tuple)):
+            cause = "refusal-write I/O error"
+        elif src is not None and is_call(src, "accept"):
+            cause = "accept I/O error"
         elif src is not None and is_call(src, S + "epoll_mod"):
             cause = "epoll_ctl error"
         elif src is not None and is_call(src, srv.HNC):
@@ -205,15 +207,18 @@ def exits(ctx, write_guarded):
                 x = look(e[1][1])
                 while is_call(x, "map_err") and x[2]:
                     x = look(x[2][0])
-                if is_call(x, "accept") or (is_call(x, "std::io::Write::write") and any(is_call(y, "accept") for y in subterms(x) if isinstance(y, tuple))):
-                    cause = "accept/refusal-write I/O error"
+                if is_call(x, "std::io::Write::write") and any(is_call(y, "accept") for y in subterms(x) if isinstance(y, tuple)):
+                    cause = "refusal-write I/O error"
+                elif is_call(x, "accept"):
+                    cause = "accept I/O error"
         if cause is None:
             ctx.fail("R09.1", "exit|unrecognised|%s" % sorted(names), "requests() can fail with %s on a path the checker does not know (fail closed)" % sorted(names), fn.loc(lf.bb), witness="blocks %s" % lf.trace[-10:])
             continue
         causes.add(cause)
         allowed = {
             "shutdown": {"ShutdownEvent"},
-            "accept/refusal-write I/O error": {"IOError(_)"},
+            "accept I/O error": {"IOError(_)"},
+            "refusal-write I/O error": set(),       # whether the refused client is still there is the client's doing (D4): not an admissible exit
             "epoll_ctl error": {"IOError(_)"},
             "epoll_wait error": {"IOError(_)"},
             "in-flight counter overflow (checked_add)": {"Overflow"},
@@ -269,6 +274,46 @@ def counter_width(ctx, rule):
                         n += 1
                         ctx.ob(rule, "counter|checked-conversion", True, "the number of requests read is converted with try_from (fails instead of truncating)", fn.loc(e[1]))
     ctx.ob(rule, "counter|floor", n >= 1, "%d conversion(s) on the way into the counter inspected" % n)
+    # ... and Overflow means overflow: read() fails only where the checked addition itself answered None -- a cap on
+    # unanswered requests folded into the same exit (`.filter(|c| *c <= MAX)`) is a failure of the polling function that a
+    # client pipelining MAX + 1 requests can cause
+    fn2, lv2 = leaves(ctx, CC + "read", lower=True)
+    m = 0
+    for lf in lv2:
+        rk = ret_kind(lf)
+        if rk is None or rk[0] == "Ok":
+            continue
+        m += 1
+        ok = False
+        why = "no test on the path"
+        if lf.conds:
+            t = look(lf.conds[-1][0])
+            x = look(t[1]) if t[0] == "discr" else t
+            while x[0] == "call" and last_seg(x[1]) in ("branch", "ok_or", "ok_or_else", "map_err", "is_none", "is_some", "ok", "and_then", "map") and x[1].split("::")[0] in ("core", "std") and x[2]:
+                x = look(x[2][0])
+            ok = x[0] == "call" and last_seg(x[1]) == "checked_add" and x[1].split("::")[0] in ("core", "std") and any(isinstance(y, tuple) and y and y[0] == "field" and y[3] == "in_flight_response_count" for y in subterms(x[2][0]))
+            if not ok and x[0] == "call" and last_seg(x[1]) in ("try_from", "try_into") and x[1].startswith(("std::convert::", "core::convert::")):
+                ok = True       # the checked conversion of the number of requests into the counter's type (fails instead of truncating)
+            if not ok and t[0] == "bin" and t[1] in ("Gt", "Lt", "Ge", "Le"):
+                # the guard of a plain sum: `n > u32::MAX - count` -- the counter, the number of requests and the type's
+                # maximum are all it may mention (any other constant is a cap)
+                def leaves_ok(y, depth=0):
+                    y = look(y)
+                    while y[0] == "cast":
+                        y = look(y[1])
+                    if y[0] == "const":
+                        return const_of(y) in (0xFFFFFFFF, 0xFFFFFFFFFFFFFFFF)
+                    if y[0] == "field":
+                        return y[3] in ("in_flight_response_count", "0", "1")  and (y[3] == "in_flight_response_count" or leaves_ok(y[1], depth + 1))
+                    if y[0] == "call":
+                        return last_seg(y[1]) == "len" and "Vec" in y[1]
+                    if y[0] in ("bin", "checked") and depth < 6:
+                        return all(leaves_ok(z, depth + 1) for z in y[2:] if isinstance(z, tuple))
+                    return False
+                ok = leaves_ok(t) and any(isinstance(y, tuple) and y and y[0] == "field" and y[3] == "in_flight_response_count" for y in subterms(t))
+            why = term_s(t)[:100]
+        ctx.ob(rule, "counter|overflow-exit-is-the-checked-addition|bb%d" % lf.bb, ok, "read() fails only where checked_add on the in-flight counter answered None (deciding test: %s)" % why, fn2.loc(lf.bb))
+    ctx.ob(rule, "counter|overflow-exit|floor", m >= 1, "%d failing path(s) of read() inspected" % m)
 
 
 def pairing(ctx, rule):
